@@ -475,6 +475,73 @@ def plan_edit(rng: random.Random, tree, weights=None) -> Plan | None:
     return p
 
 
+def list_len(node, kind, field):
+    """(lo, n) of a (virtual) list field as plan_edit computes them."""
+    if field == '_body':
+        lo = 1 if has_docstr(node) else 0
+        return lo, len(node.body) - lo
+    if field == '_all' and kind == 'Compare':
+        return 0, 1 + len(node.comparators)
+    if field == '_all' and kind == 'MatchMapping':
+        return 0, len(node.keys) + (node.rest is not None)
+    if field == '_attrs':
+        return 0, len(node.patterns) + len(node.kwd_attrs)
+    if field == '_all' and kind == 'arguments':
+        return 0, (len(node.posonlyargs) + len(node.args) + (node.vararg is not None) + len(node.kwonlyargs)
+                   + (node.kwarg is not None))
+    if field == '_all':
+        return 0, len(node.keys)
+    if field in ('_args', '_bases'):
+        return 0, len(node.args if kind == 'Call' else node.bases) + len(node.keywords)
+    return 0, len(getattr(node, field))
+
+
+def plan_field_sweep(tree, rng: random.Random, per_class=2):
+    """Systematic deletion requests over one program (each meant to be run on a fresh tree): for every node x field
+    (real and virtual) the deletion of the single-valued field, the deletion of the TAIL of the list field (the last one,
+    the last two, all elements), and of its first / last element - at most `per_class` nodes per (kind, field, shape).
+    Many are refused (required fields, minimum lengths): those exercise atomicity (C12); the accepted ones exercise the
+    end-of-block / end-of-sequence position fix-ups (C01) and the container laws (C03)."""
+    seen = {}
+    out = []
+    cands = candidates(tree)
+    rng.shuffle(cands)
+    for node, path, field, fclass in cands:
+        kind = node.__class__.__name__
+        et = elem_type(kind, field, node)
+        if et not in POOLS:
+            continue
+        shapes = []
+        if fclass == 'list':
+            lo, n = list_len(node, kind, field)
+            if n <= 0:
+                continue
+            for k in sorted({n - 1, max(0, n - 2), 0}):
+                shapes.append(('tail%d' % (n - k if n - k < 3 else 9), 'slice', k, 'end', None))
+            shapes.append(('dellast', 'del', None, None, n - 1))
+            shapes.append(('delfirst', 'del', None, None, 0))
+        else:
+            lo, n = 0, 1
+            shapes.append(('opt', 'opt', None, None, None))
+        for name, form, start, stop, idx in shapes:
+            key = (kind, field, name)
+            if seen.get(key, 0) >= per_class:
+                continue
+            seen[key] = seen.get(key, 0) + 1
+            p = Plan()
+            p.path, p.kind, p.field, p.et, p.quant = path, kind, field, et, fclass
+            p.opts = dict(rng.choice(OPTION_POOL))
+            p.lo, p.length, p.form = lo, n, form
+            p.start, p.stop, p.idx = start, stop, idx
+            p.srcs = []
+            p.view = None
+            p.codeform = 'src'
+            p.op = None
+            p.corrupt = None
+            out.append(p)
+    return out
+
+
 # ----------------------------------------------------------------------------------------------------------------------
 # invalid requests (C12): each makes a request that must raise and leave the tree untouched
 
